@@ -559,6 +559,16 @@ def _(c):
         f = lambda s: np.asarray(KeplerianContinuousMan(d0, timedelta(seconds=10), da=500.0, di=1e-4, dOmega=-2e-4).accel(s), dtype=float)
     ref, got = f(cart), f(view)
     c.ensure("same_for_every_form_of_the_state", bool(np.linalg.norm(got - ref) <= 1e-9 * np.linalg.norm(ref)))
+    # one maneuver object asked for several states (a maneuver plan shared by two spacecraft, a re-propagation): each answer is the one a fresh object gives for that state
+    other = StateVector(list(_kep2cart(1.2e7, 0.05, 0.4, 3.0, 1.0, 4.0, Earth.mu)[0]) + list(_kep2cart(1.2e7, 0.05, 0.4, 3.0, 1.0, 4.0, Earth.mu)[1]), d0, "cartesian", "EME2000")
+    mk = [lambda: ImpulsiveMan(d0, comp, frame=tag), lambda: ContinuousMan(d0, timedelta(seconds=10), accel=comp, frame=tag),
+          lambda: KeplerianImpulsiveMan(d0, da=500.0, di=1e-4, dOmega=-2e-4), lambda: KeplerianContinuousMan(d0, timedelta(seconds=10), da=500.0, di=1e-4, dOmega=-2e-4)][kind]
+    ask = (lambda m, s_: np.asarray(m.dv(s_), dtype=float)) if kind in (0, 2) else (lambda m, s_: np.asarray(m.accel(s_), dtype=float))
+    shared = mk()
+    first, second, again = ask(shared, cart), ask(shared, other), ask(shared, cart)
+    fresh_second = ask(mk(), other)
+    c.ensure("one_object_many_states", bool(np.linalg.norm(second - fresh_second) <= 1e-12 * np.linalg.norm(fresh_second) and np.linalg.norm(again - first) <= 1e-12 * np.linalg.norm(first)
+                                            and np.linalg.norm(first - ref) <= 1e-12 * np.linalg.norm(ref)))
     if kind < 2:
         r, v = np.asarray(r0), np.asarray(v0)
         h = np.cross(r, v)
